@@ -1188,6 +1188,7 @@ package mqtt
 // the abstract view of the index that the handlers use (ghost; tied to the nodes by the index's representation invariant, which is assumed)
 //@ axiom r0 <==> !old(subsview[client][subscription.Filter])
 //@ axiom subsview[client][subscription.Filter]
+//@ axiom forall c string, f string :: (c != client || f != subscription.Filter) ==> (subsview[c][f] <==> old(subsview[c][f]))
 //@ axiom nsubs == old(nsubs) + (r0 ? 1 : 0)
 //@ ensures C31-subscribe-reports-whether-the-subscription-is-new: !isShare(subscription.Filter) ==> (r0 <==> (fresh(subNode(subscription.Filter)) || !old(has(subNode(subscription.Filter).subscriptions.internal, client))))
 //@ ensures C31-subscription-stored-at-the-filters-node: !isShare(subscription.Filter) ==> has(subNode(subscription.Filter).subscriptions.internal, client) && subNode(subscription.Filter).subscriptions.internal[client] == subscription
@@ -1433,15 +1434,19 @@ package mqtt
 //@ callsite mqtt.Clients.Add C20-a-restored-session-has-the-stored-will: restoredWill(arg1, c)
 //@ callsite mqtt.Server.UnsubscribeClient C20-only-a-session-that-ended-with-its-connection-is-dropped: endsWithConnection(c)
 //@ ensures restart-path-objects-kept: serverObjectsKept(s)
+//@ ensures C20-every-stored-session-that-has-not-ended-is-registered-again: forall i int :: 0 <= i && i < len(v) && !endsWithConnection(v[i]) ==> has(s.Clients.internal, v[i].ID)
 // verif:loop mqtt.Server.loadClients 1
 //@ invariant serverObjects(s) && serverObjectsKept(s)
+//@ invariant registered-so-far: forall i int :: 0 <= i && i <= rangeindex && !endsWithConnection(v[i]) ==> has(s.Clients.internal, v[i].ID)
 // verif:def restoredSubscription(sb packets.Subscription, r storage.Subscription) bool = sb.Filter == r.Filter && sb.Qos == r.Qos && sb.Identifier == r.Identifier && (sb.NoLocal <==> r.NoLocal) && sb.RetainHandling == r.RetainHandling && (sb.RetainAsPublished <==> r.RetainAsPublished)
 // verif:func mqtt.Server.loadSubscriptions modifies=all
 //@ requires serverObjects(s)
 //@ callsite mqtt.TopicsIndex.Subscribe C20-a-restored-subscription-has-the-stored-client-filter-and-options: arg0 == s.Topics && arg1 == sub.Client && restoredSubscription(arg2, sub)
 //@ callsite mqtt.Subscriptions.Add C20-a-restored-subscription-is-entered-in-its-sessions-own-list: arg1 == sub.Filter && restoredSubscription(arg2, sub) && has(s.Clients.internal, sub.Client) && arg0 == s.Clients.internal[sub.Client].State.Subscriptions
 //@ ensures restart-path-objects-kept: sessionsRestored == old(sessionsRestored) && serverObjectsKept(s)
+//@ ensures C20-every-stored-subscription-is-in-the-topic-index-again: forall i int :: 0 <= i && i < len(v) ==> subsview[v[i].Client][v[i].Filter]
 // verif:loop mqtt.Server.loadSubscriptions 1
+//@ invariant subscribed-so-far: forall i int :: 0 <= i && i <= rangeindex ==> subsview[v[i].Client][v[i].Filter]
 //@ invariant serverObjects(s) && sessionsRestored == old(sessionsRestored) && serverObjectsKept(s)
 // verif:func mqtt.Server.loadInflight modifies=all
 //@ requires serverObjects(s)
